@@ -286,6 +286,15 @@ def lemma_statements(S):
         "mul-abs": (a, b, z3.fpAbs(z3.fpMul(RNE, a, b)) == z3.fpMul(RNE, z3.fpAbs(a), z3.fpAbs(b))),
         "div-abs": (a, b, z3.fpAbs(z3.fpDiv(RNE, a, b)) == z3.fpDiv(RNE, z3.fpAbs(a), z3.fpAbs(b))),
         "mul-self-even": (a, b, z3.fpMul(RNE, n(a), n(a)) == z3.fpMul(RNE, a, a)),
+        "add-zero-right": (a, b, z3.Implies(z3.And(z3.fpIsZero(b), z3.Not(z3.fpIsZero(a))), z3.fpAdd(RNE, a, b) == a)),
+        "sub-zero-right": (a, b, z3.Implies(z3.And(z3.fpIsZero(b), z3.Not(z3.fpIsZero(a))), z3.fpSub(RNE, a, b) == a)),
+        "sub-zero-left": (a, b, z3.Implies(z3.And(z3.fpIsZero(a), z3.Not(z3.fpIsZero(b))), z3.fpSub(RNE, a, b) == n(b))),
+        "sub-zero-iff-equal": (a, b, z3.Implies(z3.fpIsZero(z3.fpSub(RNE, a, b)), z3.fpEQ(a, b))),
+        "add-zero-iff-opposite": (a, b, z3.Implies(z3.fpIsZero(z3.fpAdd(RNE, a, b)), z3.fpEQ(a, n(b)))),
+        "mul-zero": (a, b, z3.Implies(z3.And(z3.fpIsZero(a), z3.Not(z3.fpIsInf(b)), z3.Not(z3.fpIsNaN(b))), z3.And(z3.fpIsZero(z3.fpMul(RNE, a, b)), z3.fpIsNegative(z3.fpMul(RNE, a, b)) == z3.Xor(z3.fpIsNegative(a), z3.fpIsNegative(b))))),
+        "mul-grows": (a, b, z3.Implies(z3.And(z3.fpGEQ(z3.fpAbs(b), z3.FPVal(2.0, S)), z3.Not(z3.fpIsZero(a)), z3.Not(z3.fpIsNaN(a)), z3.Not(z3.fpIsInf(a))), z3.Not(z3.fpEQ(z3.fpMul(RNE, a, b), a)))),
+        "mul-nonneg": (a, b, z3.Implies(z3.And(z3.Not(z3.fpIsNaN(z3.fpMul(RNE, a, b))), z3.fpIsNegative(a) == z3.fpIsNegative(b)), z3.Not(z3.fpIsNegative(z3.fpMul(RNE, a, b))))),
+        "sqrt-zero": (a, b, z3.Implies(z3.fpIsZero(a), z3.fpSqrt(RNE, a) == a)),
     }
 
 
@@ -297,21 +306,34 @@ def instantiate(den, extra_terms=()):
     for name, args, r in list(den.apps):
         if name == "multiply":
             a, b = args
+            two = z3.FPVal(2.0, den.S)
+            fin = lambda t: z3.Not(z3.Or(z3.fpIsInf(t), z3.fpIsNaN(t)))  # noqa
+            out += [
+                z3.Implies(z3.And(z3.fpIsZero(a), fin(b)), z3.And(z3.fpIsZero(r), z3.fpIsNegative(r) == z3.Xor(z3.fpIsNegative(a), z3.fpIsNegative(b)))),
+                z3.Implies(z3.And(z3.fpIsZero(b), fin(a)), z3.And(z3.fpIsZero(r), z3.fpIsNegative(r) == z3.Xor(z3.fpIsNegative(a), z3.fpIsNegative(b)))),
+                z3.Implies(z3.And(z3.fpGEQ(z3.fpAbs(b), two), fin(a), z3.Not(z3.fpIsZero(a))), z3.Not(z3.fpEQ(r, a))),
+                z3.Implies(z3.And(z3.fpGEQ(z3.fpAbs(a), two), fin(b), z3.Not(z3.fpIsZero(b))), z3.Not(z3.fpEQ(r, b))),
+                z3.Implies(z3.And(z3.Not(z3.fpIsNaN(r)), z3.fpIsNegative(a) == z3.fpIsNegative(b)), z3.Not(z3.fpIsNegative(r))),
+            ]
             out += [mul(n(a), b) == n(r), mul(a, n(b)) == n(r), mul(n(a), n(b)) == r, mul(b, a) == r, z3.fpAbs(r) == mul(z3.fpAbs(a), z3.fpAbs(b))]
         elif name == "divide":
             a, b = args
             out += [div(n(a), b) == n(r), div(a, n(b)) == n(r), div(n(a), n(b)) == r, z3.fpAbs(r) == div(z3.fpAbs(a), z3.fpAbs(b))]
         elif name == "add":
             a, b = args
+            out += [z3.Implies(z3.And(z3.fpIsZero(b), z3.Not(z3.fpIsZero(a))), r == a), z3.Implies(z3.And(z3.fpIsZero(a), z3.Not(z3.fpIsZero(b))), r == b), z3.Implies(z3.fpIsZero(r), z3.fpEQ(a, n(b)))]
             out += [add(b, a) == r, z3.Implies(z3.Not(z3.fpIsZero(r)), add(n(a), n(b)) == n(r)), z3.Implies(z3.fpIsZero(r), z3.fpIsZero(add(n(a), n(b))))]
             out += [sub(a, n(b)) == r, sub(b, n(a)) == r]
         elif name == "subtract":
             a, b = args
+            out += [z3.Implies(z3.And(z3.fpIsZero(b), z3.Not(z3.fpIsZero(a))), r == a), z3.Implies(z3.And(z3.fpIsZero(a), z3.Not(z3.fpIsZero(b))), r == n(b)), z3.Implies(z3.fpIsZero(r), z3.fpEQ(a, b))]
             out += [add(a, n(b)) == r, z3.Implies(z3.Not(z3.fpIsZero(r)), z3.And(sub(n(a), n(b)) == n(r), sub(b, a) == n(r))), z3.Implies(z3.fpIsZero(r), z3.And(z3.fpIsZero(sub(n(a), n(b))), z3.fpIsZero(sub(b, a))))]
         elif name == "atan2":
             y, x = args
             f = den.fn("atan2", 2)
             out += [f(n(y), x) == n(r)]  # ASSUMED contract of the native: odd in its first argument (sign of zero included)
+        elif name == "sqrt":
+            out += [z3.Implies(z3.fpIsZero(args[0]), r == args[0])]
         elif name == "sin":
             out += [den.fn("sin", 1)(n(args[0])) == n(r)]
         elif name == "cos":
